@@ -69,7 +69,8 @@ class JnpOuterPlugin(PrimitiveLeafPlugin):
     @staticmethod
     def abstract_eval(a: AbstractValue, b: AbstractValue) -> ShapedArray:
         result_shape = tuple(a.shape) + tuple(b.shape)
-        result_dtype = np.result_type(a.dtype, b.dtype)
+        # JAX's promotion lattice (int32 with float32 is float32), not NumPy's (float64)
+        result_dtype = np.dtype(jnp.result_type(a.dtype, b.dtype))
         return ShapedArray(result_shape, result_dtype)
 
     def lower(self, ctx: LoweringContextProtocol, eqn: JaxprEqn) -> None:
